@@ -444,6 +444,34 @@ def reachable_without(body, banned_edges=(), banned_blocks=(), start=0):
     return seen
 
 
+def presence_edges(b, call_site):
+    """(test site, target when Some, target when None) of the branch that decides whether the Option produced by
+    the call at `call_site` (possibly through `?`) holds a value: `x.is_some()`, `x.is_none()`, or a match on it"""
+    for s, c, t in b.calls():
+        last = callee_name(c).rsplit("::", 1)[-1] if c else ""
+        if last in ("is_some", "is_none") and "option::Option" in callee_name(c) and b.dominates(call_site, s):
+            src = b.arg_exprs(s)[0]
+            cands = [src.strip()] + [y.strip() for y in flat_alts(src)]
+            okp = unwrap_payload(src, "Ok")
+            if okp is not None:
+                cands.append(okp.strip())
+            if not any(x.k == "call" and x.x.get("site") == call_site for x in cands):
+                continue
+            ed = bool_edges(b, value_site=s)
+            if ed is None:
+                continue
+            return (s, ed[1], ed[2]) if last == "is_some" else (s, ed[2], ed[1])
+    for bb in sorted(b.normal_blocks()):
+        if b.term(bb)["t"] != "switch":
+            continue
+        e, enum, labels, oth = switch_on(b, bb)
+        if e.k == "discr" and enum == "std::option::Option" and "Some" in labels and "None" in labels:
+            x = e.a[0].strip()
+            if x.k == "call" and x.x.get("site") == call_site:
+                return (Site(bb, None), labels["Some"], labels["None"])
+    return None
+
+
 def variant_of(F, e):
     """variant name of a field-less enum value: a literal `Enum::V`, or a constant of that enum type (a named
     `const X: Enum = Enum::V`, which MIR shows as its evaluated discriminant)"""
